@@ -130,11 +130,63 @@ theorem nested_byname_any_order (enc : List Cell → Bytes) (dec : Bytes → Lis
       exact this
   exact ⟨key db idb (List.Perm.refl _) (List.Perm.refl _) oc hs, key db' idb' hp hpi oc' hs'⟩
 
-/-- acceptance, PARTIAL: at each level, for a fixed value list, by-name serialization accepts one order iff it accepts
-any other (`serValueByName_perm_accepts`).  Missing for the full statement `serNested … db idb accepts ↔ serNested …
-db' idb' accepts`: that the OUTER serializer's acceptance does not depend on the nested field's payload bytes (which
-differ between `idb` and `idb'`) — true of the interpreter (`serVal` looks only at `Some` / `None` and the type) but
-not proved here. -/
+/-- the outer serializer's verdict on a column does not depend on the nested field's payload bytes -/
+private theorem colAccepted_payload (forbid : Bool) (pre post : List (Field × Val)) (fu : Field) (x x' : Bytes)
+    (c : Col) :
+    ColAccepted forbid (outerVals pre fu x post) c ↔ ColAccepted forbid (outerVals pre fu x' post) c := by
+  unfold ColAccepted fieldFor outerVals
+  simp only [List.find?_append, List.find?_cons]
+  cases List.find? (fun p : Field × Val => !p.1.skip && p.1.col == c.name) pre with
+  | some p => simp
+  | none =>
+    simp only [Option.none_or]
+    by_cases h : (!fu.skip && fu.col == c.name) = true <;> simp [h]
+
+private theorem requiredPresent_payload (pre post : List (Field × Val)) (fu : Field) (x x' : Bytes) (db : List Col) :
+    RequiredPresent (outerVals pre fu x post) db ↔ RequiredPresent (outerVals pre fu x' post) db := by
+  unfold RequiredPresent outerVals
+  simp only [List.mem_append, List.mem_cons, or_imp, forall_and, forall_eq]
+
+private theorem serValue_byName (d : Desc) (fvs : List (Field × Val)) (db : List Col) (hfl : d.flavor = .byName) :
+    serValue d fvs db = serValueByName d fvs db := by
+  unfold serValue; rw [hfl]
+
+/-- **nested_byname_accepts_iff**: the composed serializer accepts one order of the outer field list and of the inner
+UDT's field list iff it accepts ANY other order at both levels at once (the payload of the nested field differs
+between the two inner orders; the outer verdict does not look at it). -/
+theorem nested_byname_accepts_iff (enc : List Cell → Bytes) (d di : Desc) (pre post : List (Field × Val)) (fu : Field)
+    (ifvs : List (Field × Val)) (db db' idb idb' : List Col) (hp : db.Perm db') (hpi : idb.Perm idb')
+    (hfl : d.flavor = .byName) (hfli : di.flavor = .byName)
+    (hv : ∀ x, ValidNames (outerVals pre fu x post)) (hvi : ValidNames ifvs) :
+    (∃ c, serNested enc d di pre fu post ifvs db idb = .ok c) ↔
+      (∃ c, serNested enc d di pre fu post ifvs db' idb' = .ok c) := by
+  have key : ∀ (e e' ie ie' : List Col), e.Perm e' → ie.Perm ie' →
+      (∃ c, serNested enc d di pre fu post ifvs e ie = .ok c) →
+      (∃ c, serNested enc d di pre fu post ifvs e' ie' = .ok c) := by
+    intro e e' ie ie' hpe hpie ⟨c, h⟩
+    unfold serNested at h ⊢
+    cases hic : serValue di ifvs ie with
+    | error x => rw [hic] at h; cases h
+    | ok ic =>
+      rw [hic] at h
+      simp only [] at h
+      rw [serValue_byName di ifvs ie hfli] at hic
+      obtain ⟨ic', hic'⟩ := (serValueByName_perm_accepts di ifvs ie ie' hvi hpie).mp ⟨ic, hic⟩
+      rw [serValue_byName di ifvs ie' hfli, hic']
+      simp only []
+      rw [serValue_byName d _ e hfl] at h
+      obtain ⟨hacc, hreq⟩ := (serValueByName_accepts_iff d _ e (hv _)).mp ⟨c, h⟩
+      rw [serValue_byName d _ e' hfl]
+      apply (serValueByName_accepts_iff d _ e' (hv _)).mpr
+      refine ⟨fun col hc => (colAccepted_payload _ pre post fu (enc ic) (enc ic') col).mp
+        (hacc col (hpe.mem_iff.mpr hc)), ?_⟩
+      have hreq' := (requiredPresent_payload pre post fu (enc ic) (enc ic') e).mp hreq
+      intro p hp' hs ha
+      exact ((hpe.map _).mem_iff).mp (hreq' p hp' hs ha)
+  exact ⟨key db db' idb idb' hp hpi, key db' db idb' idb hp.symm hpi.symm⟩
+
+/-- the per-level form (a fixed value list at each level; `serValueByName_perm_accepts` twice); the full statement
+over the composition is `nested_byname_accepts_iff` above -/
 theorem nested_byname_accepts_partial (d di : Desc) (fvs ifvs : List (Field × Val)) (db db' idb idb' : List Col)
     (hv : ValidNames fvs) (hvi : ValidNames ifvs) (hp : db.Perm db') (hpi : idb.Perm idb') :
     ((∃ c, serValueByName di ifvs idb = .ok c) ↔ (∃ c, serValueByName di ifvs idb' = .ok c)) ∧
